@@ -72,7 +72,9 @@ def gen_script_tokens(rng):
     for q in range(rng.randint(1, 3)):
         r = rng.random()
         if r < 0.55:
-            t = S.gen_table(rng, q, max_cols=6, clauses=rng.random() < 0.6)
+            # the relational oracle needs no model, so C05 also uses column options the reference model does not know
+            kinds = S.CORE_OPT_KINDS + (["autoinc", "collate", "comment", "check"] if rng.random() < 0.4 else [])
+            t = S.gen_table(rng, q, max_cols=6, clauses=rng.random() < 0.6, kinds=kinds)
             t["name"] = "lt%d" % q
             out.append(S.table_tokens(t))
             cols = [it["name"] for kind, it in t["items"] if kind == "col"]
